@@ -24,5 +24,5 @@ CHECK = {'level': 'exploration',
  'level_note': 'Trusted: my naive statistics, the predicates in gens.hpp, my text-field encoder (cifprint.cpp), rapidcheck, the sanitizers.',
  'engines': [{'src': 'pbt/C18_analyze.cpp',
               'args': ['--workers-quick', '8', '--workers-thorough', '16'],
-              'quick': {'workers': 8, 'cases': 700, 'size': 100},
-              'thorough': {'workers': 16, 'cases': 40000, 'size': 100}}]}
+              'quick': {'workers': 8, 'cases': 900, 'size': 100},
+              'thorough': {'workers': 16, 'cases': 30000, 'size': 100}}]}
